@@ -30,6 +30,8 @@ func checkC03(c *Ctx) {
 	c.Rule("C03/R4", "exponent range check: in the decimal-to-bits conversion every increase of the binary exponent is followed, before the bits are assembled, by the test against the format's exponent limit (otherwise out-of-range text yields a silent Inf/garbage instead of a range error)")
 
 	c.Rule("C03/R11", "the slow path's decimal starts from the zero value: every (*decimal).set is called on a decimal allocated in the calling function")
+	c.Rule("C03/R13", "the decimal point sits after all digits read, kept or dropped: in readFloat's scanning loop the point position is assigned only the count of all digits (variables found by name; no claim if renamed)")
+	c.Rule("C03/R12", "a sign is not a number: where Atoi's fast path strips a leading sign by re-slicing from 1, the remainder's length is tested and the empty remainder returns an error")
 	c.Rule("C03/R10", "a dropped mantissa digit counts as truncation only if it is not zero: in readFloat the truncation flag becomes true only where the digit is known to differ from '0' (or is a hexadecimal letter)")
 	c.Rule("C03/R9", "iteration counts are decimal: Atoi hands the text it does not parse itself to ParseInt with base 10 and bit size 0 (base 0 would read 0x10, 0b1, 0o7, a leading 0 as octal and underscores)")
 	c.Rule("C03/R8", "infinities and NaN: the port's recogniser accepts exactly strconv's spellings (optional sign on inf/infinity, none on nan), comparing the whole input with the literal, and maps each to the same value")
@@ -48,6 +50,8 @@ func checkC03(c *Ctx) {
 	c03Decimal(c, p)
 	c03Trunc(c, p)
 	c03FreshDecimal(c, p)
+	c03SignAlone(c, p)
+	c03PointPosition(c, p)
 	if c.Tier == "thorough" {
 		if c.override == nil {
 			c03Drift(c, p)
